@@ -78,6 +78,15 @@ os.path.join excepted) is logged as an unmodelled effect (breaks the trace equal
 failed by NAME with EPERM - so an exception surfacing after the rename has committed is seen by the oracle.
 Scenarios where the caller holds a live numpy view of a (destination-backed) tensor: release() raises
 BufferError (model: AReleaseHeld / sc_held; it happens before the rename, so the save fails cleanly).
+Real-file flavour (oracle only, `exercise_realfile`): every single-file scenario is also saved with the module's
+own open() (ordinary buffered files with a descriptor; ExternalTensor.tofile takes its copy_file_range path, numpy
+writes through the fd), serial and with max_workers=3, and judged against the run through the modelled file path
+(same outcome class, same destination bytes).  Sources shorter than offset+length (truncated data file, also the
+destination itself re-saved in place) must make the save raise and leave the destination.
+A fault at close() exists in two forms: plain (model-tied), and "lossy" = the bytes written since the last
+seek/flush - which a real buffered file would still hold in userspace - are turned back into a hole before the
+OSError is raised (ENOSPC/EFBIG/EIO at flush time); lossy is what the parallel writer's faults use, and the
+oracle requires "a save that returns normally holds the complete new bytes".
 Interruptions injected by the generator: os.replace is additionally failed with PermissionError (EACCES,
 EPERM), once and persistently (every retry fails too); after every injected fault every later effect - the
 effects that only exist on error paths - is also a kill point (ctl with both crash_at and fault_at), and the
@@ -120,6 +129,10 @@ Mutants tried (scratch worktree /tmp/wt-C08, VERIF_REPO), all reported VIOLATION
                                                             raises, destination already new); r3m3 (release after the rename
                                                             on POSIX) -> oracle replay (live numpy view: BufferError after the
                                                             destination was replaced)
+  seeded C08-r4m1 (worker handles closed under suppress(OSError) in _write_parallel) -> oracle replay (lossy close fault:
+                                                            save returns normally, destination lost bytes); r4m3 (`else: return`
+                                                            after the copy_file_range loop) -> oracle replay (real-file flavour,
+                                                            truncated source: save succeeds with an incomplete file)
 Unchanged tree: quiet for VERIF_SEED 0..4 (two `fixed:` lines).
 """
 
@@ -389,6 +402,11 @@ def oracle(scn: dict, root: str, before: dict, after: dict, outcome: str, failed
             if cur != old and not (new_bytes is not None and cur == new_bytes.get(d)):
                 bad.append(f"destination {d} holds neither the previous bytes nor the complete new bytes "
                            f"({len(cur)} bytes, old {len(old)})")
+    # 1b. a save that returns normally has produced the complete new data file
+    if outcome == "ok" and new_bytes is not None and not sharded:
+        for d in dests:
+            if d in new_bytes and (d not in after or after[d][0] != "file" or after[d][1] != new_bytes[d]):
+                bad.append(f"save returned normally but destination {d} does not hold the complete new bytes")
     # 2. exception while producing the new file: everything as before, nothing left over
     cleanup_fault = failed_kind in ("remove", "rmdir")
     if outcome == "raise" and not cleanup_fault:
@@ -476,6 +494,8 @@ def gen_scenario(rng, sharded: bool = False) -> dict:
             k = "mem"
         if k in ("short", "missing") and rng.random() < 0.6:
             k = "extd"
+        if k == "extd" and backing is not None and rng.random() < 0.08:
+            k = "shortd"
         if k == "extd" and backing is None:
             k = "exto"
         if k == "small" and (backing is None or thr == 0):
@@ -497,6 +517,10 @@ def gen_scenario(rng, sharded: bool = False) -> dict:
                             "preload": rng.random() < 0.3})
         elif k == "short":
             tensors.append({"kind": "ext", "file": "src.bin", "off": 22, "len": 8 + rng.choice([1, 5, 12]),
+                            "preload": False})
+        elif k == "shortd":
+            # the data file was truncated behind the tensor's back: offset+length exceeds the backing file
+            tensors.append({"kind": "ext", "file": backing, "off": max(0, len(old) - 2), "len": thr + rng.choice([3, 6]),
                             "preload": False})
         elif k == "missing":
             tensors.append({"kind": "ext", "file": "nothere.bin", "off": 0, "len": thr + 3, "preload": False})
@@ -536,6 +560,8 @@ def gen_scenario(rng, sharded: bool = False) -> dict:
     for t in tensors:
         # the caller keeps a live numpy view of some (large) external tensors: release() raises BufferError
         if t["kind"] == "ext" and t["len"] > thr and "\0" not in t["file"] and t["file"] not in ("nothere.bin",) \
+                and not (t["file"] in files and files[t["file"]]["kind"] == "file"
+                         and t["off"] + t["len"] > len(files[t["file"]]["bytes"])) \
                 and not (t["file"] == "src.bin" and t["off"] + t["len"] > 30) and rng.random() < 0.2:
             t["hold"] = True
     nbig = sum(1 for t in tensors if tensor_nbytes(t) > thr)
@@ -575,6 +601,9 @@ class ScenarioRun:
         self.oracle_failures: list[dict] = []
         self.text = ""
         self.n_effects = 0
+        self.ref_outcome = None        # outcome of the un-interrupted save through the modelled file path
+        self.new_bytes = None
+        self.tens_before = None
 
 
 def exercise(ck, scn: dict, tag: str, root: str, kills: bool = True, faults: bool = True) -> ScenarioRun:
@@ -599,6 +628,7 @@ def exercise(ck, scn: dict, tag: str, root: str, kills: bool = True, faults: boo
                  tens_before, b)
     if bad:
         sr.oracle_failures.append({"scenario": scn, "mode": "none", "index": None, "failures": bad})
+    sr.ref_outcome, sr.new_bytes, sr.tens_before = outcome, new_bytes, tens_before
     sr.checks.append((
         f"agree_full {run_term(scn, tag, None, None)} {c_sig(outcome)} {clist(c_ob(e, tok) for e in log)} "
         f"{c_fs(S.observe(root, canon), tok)} {c_tobs(S.tensor_obs(b))}",
@@ -642,6 +672,18 @@ def exercise(ck, scn: dict, tag: str, root: str, kills: bool = True, faults: boo
                     f"{c_fs(S.observe(root, canon), tok)} {c_tobs(S.tensor_obs(b2))}",
                     dict(desc, impl_log=[list(map(str, e)) for e in log2], impl_outcome=c_sig(out2))))
                 S.cleanup(b2)
+                if kind == "close" and err is None:
+                    # the same failure at close() with the data a real buffered file would still hold in userspace
+                    # lost (ENOSPC/EIO at flush time); oracle only
+                    b5, c5, out5 = S.run_save(scn, root, "fault", k, lossy=True)
+                    ck.count()
+                    ck.hist("fault_kinds", "close:lossy")
+                    bad = oracle(scn, root, b5.before, snapshot(root), "ok" if out5[0] == "ok" else "raise", kind,
+                                 new_bytes, tens_before, b5)
+                    if bad:
+                        sr.oracle_failures.append({"scenario": scn, "mode": "fault", "index": k, "kind": kind,
+                                                   "lossy": True, "failures": bad})
+                    S.cleanup(b5)
                 if persistent or (err is None and kind == "replace"):
                     continue
                 # fault at k, then death before effect j (j ranges over everything that runs after the fault)
@@ -720,6 +762,35 @@ def coq_compare(ck, runs: list[ScenarioRun], tagbase: str) -> list[dict]:
     return out
 
 
+# --------------------------------------------------------------------------- real files: oracle only
+
+def exercise_realfile(ck, scn: dict, root: str, ref_outcome, new_bytes, tens_before) -> list[dict]:
+    """The same save through ordinary buffered Python files with a descriptor (the module's open() is not
+    replaced): ExternalTensor.tofile takes its copy_file_range path, numpy writes through the fd.  Serial and
+    parallel writer.  Judged against the run through the modelled file path (whose trace and result are tied to
+    the Coq model): same outcome class, same destination bytes; in particular a tensor whose backing file is
+    shorter than offset+length cannot deliver its bytes, so the save must raise and leave the destination."""
+    fails = []
+    for mw in (None, 3):
+        scn2 = dict(scn, max_workers=mw)
+        b2, c2, out2 = S.run_save(scn2, root, realfile=True)
+        after2 = snapshot(root)
+        ck.count()
+        ck.hist("realfile", ("parallel:" if mw else "serial:") + ("ok" if out2[0] == "ok" else "raise"))
+        bad = oracle(scn2, root, b2.before, after2, "ok" if out2[0] == "ok" else "raise", None, new_bytes,
+                     tens_before, b2)
+        if ref_outcome[0] != "ok" and out2[0] == "ok":
+            bad.append("save returned normally through real files although the new data file cannot be produced "
+                       f"(the save through the modelled file path raises {type(ref_outcome[1]).__name__})")
+        if ref_outcome[0] == "ok" and out2[0] != "ok":
+            bad.append(f"save raised {type(out2[1]).__name__} through real files but succeeds through the modelled "
+                       "file path")
+        if bad:
+            fails.append({"scenario": scn2, "mode": "realfile", "index": None, "failures": bad})
+        S.cleanup(b2)
+    return fails
+
+
 # --------------------------------------------------------------------------- parallel writer: oracle only
 
 def exercise_parallel(ck, scn: dict, root: str) -> list[dict]:
@@ -746,7 +817,7 @@ def exercise_parallel(ck, scn: dict, root: str) -> list[dict]:
         if bad:
             fails.append({"scenario": scn, "mode": "kill", "index": k, "failures": bad})
     for k in range(n):
-        b2, c2, out2 = S.run_save(scn, root, "fault", k)
+        b2, c2, out2 = S.run_save(scn, root, "fault", k, lossy=True)
         a2 = snapshot(root)
         ck.count()
         failed_kind = next((e[1] for e in c2.log if e[0] == "fail"), None)
@@ -805,6 +876,8 @@ def run(ck) -> None:
         sr = exercise(ck, scn, str(i), root)
         runs.append(sr)
         oracle_failures += sr.oracle_failures
+        if scn.get("max_shard") is None:
+            oracle_failures += exercise_realfile(ck, scn, root, sr.ref_outcome, sr.new_bytes, sr.tens_before)
         ck.hist("scenario_source", src)
         for t in scn["tensors"]:
             ck.hist("tensor_kinds", t["kind"])
@@ -853,6 +926,7 @@ def report(ck, oracle_failures: list[dict]) -> None:
         ck.violation({"kind": "oracle", "scenario": small["scenario"], "mode": small["mode"],
                       "index": small["index"], "fault_index": small.get("fault_index"),
                       "errno": small.get("errno"), "persistent": small.get("persistent", False),
+                      "lossy": small.get("lossy", False),
                       "failures": small["failures"], "broken": ck.broken_items})
 
 
@@ -903,7 +977,8 @@ def _oracle_once(ck, scn: dict, mode: str, index) -> list[str]:
         shutil.rmtree(root, ignore_errors=True)
 
 
-def replay_case(scn: dict, mode: str, index, root: str, errno=None, persistent=False, fault_index=None) -> list[str]:
+def replay_case(scn: dict, mode: str, index, root: str, errno=None, persistent=False, fault_index=None,
+                lossy=False) -> list[str]:
     b = S.build(scn, root)
     before = snapshot(root)
     tens_before = S.tensor_obs(b)
@@ -911,13 +986,26 @@ def replay_case(scn: dict, mode: str, index, root: str, errno=None, persistent=F
     b, ctl, outcome = S.run_save(scn, root)
     after = snapshot(root)
     new_bytes = {p: e[1] for p, e in after.items() if e[0] == "file"} if outcome[0] == "ok" else None
+    if mode == "realfile":
+        S.cleanup(b)
+        serial = dict(scn, max_workers=None)
+        bs, cs, outs = S.run_save(serial, root)
+        nb = {p: e[1] for p, e in snapshot(root).items() if e[0] == "file"} if outs[0] == "ok" else None
+        S.cleanup(bs)
+
+        class _Ck:
+            def count(self, n=1): pass
+            def hist(self, *a): pass
+        fl = exercise_realfile(_Ck(), scn, root, outs, nb, tens_before)
+        return [x for f in fl if f["scenario"].get("max_workers") == scn.get("max_workers") for x in f["failures"]]
     if mode == "none":
         return oracle(scn, root, b.before, after, "ok" if outcome[0] == "ok" else "raise", None, new_bytes,
                       tens_before, b)
     if mode == "fault":
         if index >= ctl.n:
             return []
-        b2, c2, out2 = S.run_save(scn, root, "fault", index, errno, persistent)
+        b2, c2, out2 = S.run_save(scn, root, "fault", index, errno, persistent,
+                                  lossy=lossy or (scn.get("max_workers") or 1) > 1)
         kind = next((e[1] for e in c2.log if e[0] == "fail"), None)
         return oracle(scn, root, b2.before, snapshot(root), "ok" if out2[0] == "ok" else "raise", kind, new_bytes,
                       tens_before, b2)
@@ -946,8 +1034,8 @@ def shrink(ck, f: dict) -> dict:
                         if bad:
                             return j, bad, k
                 return None
-            for k in ([None] if cur["mode"] == "none" else range(n + 1)):
-                bad = replay_case(scn, cur["mode"], k, root, en, pers)
+            for k in ([None] if cur["mode"] in ("none", "realfile") else range(n + 1)):
+                bad = replay_case(scn, cur["mode"], k, root, en, pers, None, cur.get("lossy", False))
                 if bad:
                     return k, bad, None
         except Exception:  # noqa: BLE001
@@ -1009,7 +1097,16 @@ def replay(rp: dict) -> int:
     root = os.path.join(common.SCRATCH_ROOT, f"replay-C08-{os.getpid()}")
     try:
         bad = replay_case(scn, rp.get("mode", "none"), rp.get("index"), root, rp.get("errno"),
-                          rp.get("persistent", False), rp.get("fault_index"))
+                          rp.get("persistent", False), rp.get("fault_index"), rp.get("lossy", False))
+        if not bad and (scn.get("max_workers") or 1) > 1 and rp.get("mode") in ("fault", "kill"):
+            # the parallel writer's effect order depends on the schedule: the recorded index names a position in
+            # one schedule; try every position of this run's schedule
+            _, ctl, _ = S.run_save(scn, root)
+            for k in range(ctl.n + 1):
+                bad = replay_case(scn, rp["mode"], k, root, rp.get("errno"), rp.get("persistent", False), None,
+                                  rp.get("lossy", False))
+                if bad:
+                    break
     finally:
         shutil.rmtree(root, ignore_errors=True)
     print(json.dumps({"scenario": scn, "mode": rp.get("mode"), "index": rp.get("index"), "failures": bad}, indent=1))
